@@ -30,6 +30,17 @@ type vhFlatF struct {
 	Y uint16  `point:"y"`
 }
 
+// a flat struct with a pointer field: the only shape in which single fields carry tombstones
+type vhFlatP struct {
+	X int  `point:"x"`
+	Y *int `point:"y"`
+}
+
+type vhFlatPF struct {
+	X string   `point:"x"`
+	Y *float64 `point:"y"`
+}
+
 // vk tag: the abstract kind of Points.tla the field is an instance of
 type vhCfg struct {
 	ID     string `node:"id"`
@@ -80,6 +91,9 @@ type vhCfg struct {
 
 	PTS  *vhFlat  `point:"pTS" vk:"pstruct"`
 	PTSF *vhFlatF `point:"pTSF" vk:"pstruct"`
+
+	PTP  *vhFlatP  `point:"pTP" vk:"pstructp"`
+	PTPF *vhFlatPF `point:"pTPF" vk:"pstructp"`
 }
 
 // scalar concretisation: atom (0 = zero, 1, 2) -> value of Go type t, varied by conc
@@ -185,6 +199,15 @@ func vhStructVal(t reflect.Type, obj map[string]json.RawMessage, conc int) refle
 	for i := 0; i < t.NumField(); i++ {
 		key := t.Field(i).Tag.Get("point")
 		if r, ok := obj[key]; ok {
+			if ft := t.Field(i).Type; ft.Kind() == reflect.Pointer {
+				// abstract value of a pointer field: [] = nil, [atom] = pointer to the atom's value
+				if l := jList(r); len(l) > 0 {
+					p := reflect.New(ft.Elem())
+					p.Elem().Set(vhScalar(ft.Elem(), jInt(l[0]), conc))
+					v.Field(i).Set(p)
+				}
+				continue
+			}
 			v.Field(i).Set(vhScalar(t.Field(i).Type, jInt(r), conc))
 		}
 	}
@@ -225,7 +248,7 @@ func vhValue(kind string, t reflect.Type, abs json.RawMessage, conc int) reflect
 		return m
 	case "struct":
 		return vhStructVal(t, jObj(abs), conc)
-	case "pstruct":
+	case "pstruct", "pstructp":
 		l := jList(abs)
 		if len(l) == 0 {
 			return v
